@@ -188,6 +188,92 @@ Section Proofs.
     - congruence.
   Qed.
 
+  (* ---- empty pieces ----
+     The readers of http/stream.py never hand an empty piece to the decoder (see
+     Proofs/DecompGlueProofs.v).  What if a caller did?  After the first
+     non-empty piece empty ones change nothing; an empty FIRST piece makes
+     GzipDecompressor decide "not gzip" (value[:1] == b'' is not the magic) and
+     pass everything through - so the hypothesis cannot be dropped for it. *)
+  Definition settled (s : dstate zst) : Prop :=
+    match s with
+    | SG _ (GUnchecked _) => False
+    | SD _ (DHdr _ buf) => (length buf < 2)%nat
+    | _ => True
+    end.
+
+  Lemma decompress_nil s : settled s -> decompress zst zinit zstep s [] = Some (s, []).
+  Proof.
+    destruct s as [[| |z]|[buf|z]|]; cbn [settled decompress gz_decompress df_decompress Decomp.zfeed];
+      try contradiction; try reflexivity.
+    intros Hb. rewrite app_nil_r. destruct buf as [|x [|y buf]]; [reflexivity|reflexivity|cbn in Hb; lia].
+  Qed.
+
+  Lemma decompress_settled s p s' o :
+    settled s -> decompress zst zinit zstep s p = Some (s', o) -> settled s'.
+  Proof.
+    destruct s as [[| |z]|[buf|z]|]; cbn [settled decompress gz_decompress df_decompress]; try contradiction.
+    - intros _ [= <- <-]. exact I.
+    - intros _. destruct (zfeed z p) as [[z' o']|]; [|discriminate]. intros [= <- <-]. exact I.
+    - intros _. destruct (buf ++ p) as [|c [|f r]].
+      + intros [= <- <-]. cbn. lia.
+      + intros [= <- <-]. cbn. lia.
+      + destruct (zfeed _ (c :: f :: r)) as [[z' o']|]; [|discriminate]. intros [= <- <-]. exact I.
+    - intros _. destruct (zfeed z p) as [[z' o']|]; [|discriminate]. intros [= <- <-]. exact I.
+    - intros _ [= <- <-]. exact I.
+  Qed.
+
+  Definition nonempty_b (p : list N) : bool := match p with [] => false | _ => true end.
+
+  Lemma run_from_drop_empty ps : forall s, settled s ->
+    run_from s ps = run_from s (filter nonempty_b ps).
+  Proof.
+    induction ps as [|p ps IH]; intros s Hs; [reflexivity|].
+    destruct p as [|x p].
+    - cbn [filter nonempty_b Decomp.run_from]. rewrite decompress_nil by assumption.
+      rewrite IH by assumption. destruct (run_from s _); reflexivity.
+    - cbn [filter nonempty_b Decomp.run_from].
+      destruct (decompress zst zinit zstep s (x :: p)) as [[s' o]|] eqn:E; [|reflexivity].
+      rewrite IH by (eapply decompress_settled; eassumption). reflexivity.
+  Qed.
+
+  Lemma concat_drop_empty (ps : list (list N)) : concat (filter nonempty_b ps) = concat ps.
+  Proof.
+    induction ps as [|p ps IH]; [reflexivity|]. destruct p as [|x p]; cbn [filter nonempty_b concat]; [exact IH|].
+    now rewrite IH.
+  Qed.
+
+  Lemma Forall_drop_empty (ps : list (list N)) : Forall (fun p => p <> []) (filter nonempty_b ps).
+  Proof.
+    apply Forall_forall. intros p Hp. apply filter_In in Hp. destruct Hp as [_ Hp]. destruct p; [discriminate|congruence].
+  Qed.
+
+  Lemma first_piece_settles k p s' o :
+    p <> [] -> decompress zst zinit zstep (dinit zst k) p = Some (s', o) -> settled s'.
+  Proof.
+    intros Hp. destruct k; cbn [dinit].
+    - destruct p as [|b p]; [contradiction|]. cbn [decompress gz_decompress].
+      destruct (N.eq_dec b 31) as [->|Hb].
+      + destruct (zfeed (zinit W31) (31 :: p)) as [[z' o']|]; [|discriminate]. intros [= <- <-]. exact I.
+      + assert (E : forall (X : Type) (x y : X), match b with 31 => x | _ => y end = y).
+        { intros X x y. destruct b as [|q]; [reflexivity|].
+          do 5 (destruct q as [q|q|]; try reflexivity). congruence. }
+        rewrite E. intros [= <- <-]. exact I.
+    - apply decompress_settled. cbn. lia.
+    - apply decompress_settled. exact I.
+  Qed.
+
+  Theorem first_nonempty_suffices k p ps :
+    p <> [] -> run k (p :: ps) = reference k (concat (p :: ps)).
+  Proof.
+    intros Hp.
+    assert (R : run k (p :: ps) = run k (p :: filter nonempty_b ps)).
+    { unfold Decomp.run. cbn [Decomp.run_from].
+      destruct (decompress zst zinit zstep (dinit zst k) p) as [[s' o]|] eqn:E; [|reflexivity].
+      rewrite run_from_drop_empty by (eapply first_piece_settles; eassumption). reflexivity. }
+    rewrite R. rewrite run_is_reference by (constructor; [assumption|apply Forall_drop_empty]).
+    cbn [concat]. now rewrite concat_drop_empty.
+  Qed.
+
   (* ---- data after the end marker: multi-member gzip, trailing garbage ----
      zlib law (sampled against the real library on every run): once the end
      marker has been seen, further input is swallowed - no output, no error,
